@@ -711,6 +711,9 @@ func (f *Frame) loopBases(blocks map[*ssa.BasicBlock]bool) map[string]*compBases
 				if cm.IsInvoke() {
 					args = append([]ssa.Value{cm.Value}, args...)
 				}
+				if p.owner != nil {
+					args = append([]ssa.Value{p.owner}, args...)
+				}
 				switch p.kind {
 				case "builtin":
 					switch p.name {
